@@ -132,6 +132,9 @@ def _vm_goal(cid, case, out):
             t = "OPush %s" % a
         elif op[0] == "T":
             k, x, an, rf = a.split(":")
+            x = "0" if x == "6" else x
+            if rf == "B":
+                rf = "D%d" % (n + 7)
             t = "OTag (mkDesc %s %s %s) %s" % (k, x, "None" if an == "-" else "(Some (RTag %s))" % an,
                                                "(RDig %s)" % k if rf == "d" else
                                                "(RDig %s)" % rf[1:] if rf[0] == "D" else "(RTag %s)" % rf)
@@ -160,11 +163,11 @@ def _vm_goal(cid, case, out):
         return None
     f = last[2:-1].split("|")
     o1, o2 = _vm_obs(f[0], n, T, froms), _vm_obs(f[1], n, T, froms)
-    if o1 is None or o2 is None or f[1] != f[2] or f[1] != f[3]:
+    if o1 is None or o2 is None or f[1] != f[2] or f[1] != f[3] or f[1] != f[4]:
         return None
     return "vm_case [%s] %s %d %s %s [%s] = ([%s], %s, %s, %s)" % (
         ";".join(nodes), _vm_nats(badl), T, _vm_nats(froms), cfg, ";\n  ".join(hist), ";".join(results), o1, o2,
-        "true" if f[4] == "v1" else "false")
+        "true" if f[5] == "v1" else "false")
 
 
 def _c08_vm_sample(d, tier, coq, build, want=200):
